@@ -729,7 +729,12 @@ class TimeoutHandler(PoolThread):
         except OSError:
             pass
         else:
-            if worker._popen.wait(timeout=0.1):
+            try:
+                if worker._popen.wait(timeout=0.1):
+                    return
+            except (OSError, ValueError):
+                # the supervisor reaped the worker and closed its sentinel
+                # while we were about to wait on it: it is gone.
                 return
         debug('timeout: TERM timed-out, now sending KILL to %s', worker._name)
         try:
